@@ -3,7 +3,7 @@
    the implementation's float results arrive as exact dyadic rationals and must be, up to
    2^-16, the unit vector in the direction the model computes.  No float enters Coq. *)
 From Coq Require Import List Bool Arith ZArith QArith Qcanon.
-From PC Require Import Model.Normals Gen.NormalsAcc.
+From PC Require Import Model.Normals Gen.NormalsAcc Gen.Tangents.
 Import ListNotations.
 
 Definition qc_ops : ops := mk_ops Qc 0%Qc 1%Qc Qcplus Qcmult Qcminus Qcopp.
@@ -96,7 +96,7 @@ Definition case_ok (c : case) : bool :=
       let P := map (qv vden) verts in
       let W := map (quv uvden) uvs in
       let NR := map (qv 1) normals in
-      let raw := gen_tangents_raw qc_ops (code_accumulate qc_ops) Qcinv P W NR tris uvtris ntris in
+      let raw := code_gen_tangents_raw qc_ops Qcinv P W NR tris uvtris ntris in
       forallb (in_range (length verts)) tris &&
       forallb2 (fun t u => negb (q0 (uv_det qc_ops (uvnth qc_ops W (c0 u)) (uvnth qc_ops W (c1 u))
                                                   (uvnth qc_ops W (c2 u))))) tris uvtris &&
